@@ -8,6 +8,7 @@ import (
 	"net"
 	"os"
 	"os/exec"
+	"path/filepath"
 	"strconv"
 	"strings"
 	"sync"
@@ -16,6 +17,7 @@ import (
 	"github.com/bolkedebruin/rdpgw/cmd/rdpgw/identity"
 	"github.com/bolkedebruin/rdpgw/cmd/rdpgw/protocol"
 	"github.com/bolkedebruin/rdpgw/cmd/rdpgw/security"
+	"github.com/bolkedebruin/rdpgw/cmd/rdpgw/web"
 )
 
 func init() {
@@ -232,6 +234,7 @@ type c07Live struct {
 	downSent []byte
 	broken   string
 	ended    bool
+	cookie   string // session cookie sent with this tunnel's requests ("" = none)
 	mu       sync.Mutex
 }
 
@@ -355,8 +358,12 @@ func setupC07Round(spec *c07Spec, gw *gwServer, idp *fakeIdP, only int) *c07Roun
 		case "minted-foreign": // a token this user minted for another user's host
 			l.token, l.askHost = c07Mint(l.user, o.host.addr, l.xff), o.host.addr
 			rd.tokens[l.token] = [3]string{o.host.addr, l.xff, l.user}
-		case "shared-user": // the same user and address as another tunnel, a second host, one access token
-			l.user, l.xff = o.user, o.xff
+		case "shared-user": // the same user, access token and web session (cookie) as another tunnel; a second host, an address of its own
+			l.user = o.user
+			if o.cookie == "" {
+				o.cookie = c07SessionCookie(gw.addr)
+			}
+			l.cookie = o.cookie
 			rd.hosts = append(rd.hosts, l.host.addr)
 			l.token, l.askHost = c07Mint(l.user, l.host.addr, l.xff), l.host.addr
 			rd.tokens[l.token] = [3]string{l.host.addr, l.xff, l.user}
@@ -428,7 +435,38 @@ func (l *c07Live) clientView() (resps []string, down []byte) {
 	return
 }
 
-func (rd *c07Round) hdr(l *c07Live) string { return "X-Forwarded-For: " + l.xff + "\r\n" }
+func (rd *c07Round) hdr(l *c07Live) string {
+	h := "X-Forwarded-For: " + l.xff + "\r\n"
+	if l.cookie != "" {
+		h += "Cookie: " + l.cookie + "\r\n"
+	}
+	return h
+}
+
+// c07SessionCookie makes a plain request and returns the session cookie the gateway sets.
+func c07SessionCookie(addr string) string {
+	c, err := net.DialTimeout("tcp", addr, 2*time.Second)
+	if err != nil {
+		return ""
+	}
+	defer c.Close()
+	c.SetDeadline(time.Now().Add(2 * time.Second))
+	fmt.Fprintf(c, "GET /remoteDesktopGateway/ HTTP/1.1\r\nHost: x\r\nConnection: close\r\n\r\n")
+	br := bufio.NewReader(c)
+	for {
+		line, err := br.ReadString('\n')
+		if err != nil || line == "\r\n" {
+			return ""
+		}
+		if strings.HasPrefix(strings.ToLower(line), "set-cookie:") {
+			v := strings.TrimSpace(line[len("set-cookie:"):])
+			if i := strings.IndexByte(v, ';'); i >= 0 {
+				v = v[:i]
+			}
+			return v
+		}
+	}
+}
 
 func (rd *c07Round) reqEvent(conn int, m, w string, id, xff string) string {
 	return fmt.Sprintf("R%d.%s.%s.%s.-.%s", conn, m, w, hx([]byte(id)), hx([]byte(xff)))
@@ -520,6 +558,10 @@ func (rd *c07Round) exec(e c07Ev) {
 			pl := c07Payload("C", l.t.idx, e.arg, spec.seed, spec.round)
 			l.upSent = append(l.upSent, pl...)
 			p = mkPacket(tData, bodyData(pl))
+			if spec.storm == 0 && (e.arg+l.t.idx)%4 == 3 {
+				// a DATA packet that declares more than it carries: only what it carries is forwarded
+				p = mkPacket(tData, append(le16(len(pl)+1+(e.arg*977)%3000), pl...))
+			}
 		case "ka":
 			p = mkPacket(tKeepalive, nil)
 		}
@@ -799,15 +841,27 @@ func c07Foreign(stream []byte, dir string, own int) string {
 	}
 }
 
+// c07FileStore switches the gateway's session store to the filesystem store (sessions shared by
+// several requests are then decoded from one stored record); returns the clean-up.
+func c07FileStore() func() {
+	dir := filepath.Join(verifRoot, "work", fmt.Sprintf("c07-sessions-%d", os.Getpid()))
+	os.MkdirAll(dir, 0o700)
+	old := os.Getenv("TMPDIR")
+	os.Setenv("TMPDIR", dir)
+	web.InitStore([]byte("0123456789abcdef0123456789abcdef"), []byte("fedcba9876543210fedcba9876543210"), "file", 0)
+	return func() { os.Setenv("TMPDIR", old); os.RemoveAll(dir) }
+}
+
 func c07Gateway() *protocol.Gateway {
 	return &protocol.Gateway{TokenAuth: true, CheckPAACookie: security.CheckPAACookie, CheckHost: security.CheckSession(security.CheckHost)}
 }
 
 func runC07(r *Run) {
-	r.rule = "rounds of 1…N simultaneous tunnels (quick N ≤ 12, thorough N ≤ 64) on both transports against the real HTTP handler with the real token and host policy callbacks: distinct connection identifiers (mstsc brace form, bare, sharing long prefixes, suffixed, short), different users / client addresses / tokens / hosts, tunnels that present another tunnel's token, ask for another tunnel's host, or share a user and access token; tagged payloads in both directions; every way of ending; stray inbound requests with unknown, near-miss and other tunnels' identifiers; schedules are random merges of the per-tunnel scripts (one driver) or one driver per tunnel; non-trivial = every tunnel; distinct by (seed, round, tunnel)"
+	r.rule = "rounds of 1…N simultaneous tunnels (quick N ≤ 12, thorough N ≤ 64) on both transports against the real HTTP handler with the real token and host policy callbacks: distinct connection identifiers (mstsc brace form, bare, sharing long prefixes, suffixed, short), different users / client addresses / tokens / hosts, tunnels that present another tunnel's token, ask for another tunnel's host, or share a user, access token and web-session cookie (filesystem session store) from different addresses; DATA packets declaring more than they carry; tagged payloads in both directions; every way of ending; stray inbound requests with unknown, near-miss and other tunnels' identifiers; schedules are random merges of the per-tunnel scripts (one driver) or one driver per tunnel; non-trivial = every tunnel; distinct by (seed, round, tunnel)"
 	idp := setupSecurity()
 	gws := startGateway(c07Gateway())
 	defer gws.close()
+	defer c07FileStore()()
 	r.TierRan("api")
 	legacyDrainWait = 15 * time.Millisecond // many tunnels at once: give the IN handler time to reach its Drain
 	rounds := r.N(36, 600)
@@ -858,6 +912,11 @@ func runC07(r *Run) {
 			ownerOfHost := l.t.idx
 			if f := c07Foreign(down, "H", l.t.idx); f != "" {
 				r.Violation("c07-client-foreign-bytes", fmt.Sprintf("the client of tunnel %d received bytes produced by the host of another tunnel (%s)", l.t.idx, f), spec.String()+fmt.Sprintf("tunnel %d client received: %q\n", l.t.idx, down))
+			}
+			if l.hc != nil && !bytes.HasPrefix(l.upSent, l.hc.received()) {
+				got := l.hc.received()
+				r.Violation("c07-host-foreign-bytes", fmt.Sprintf("the host of tunnel %d received bytes that its own tunnel's client did not send", l.t.idx),
+					spec.String()+fmt.Sprintf("client of tunnel %d sent %d payload bytes; its host received %d bytes, first difference at offset %d\nsent:     %q\nreceived: %q\n", l.t.idx, len(l.upSent), len(got), firstDiff(got, l.upSent), c07Clip(l.upSent), c07Clip(got)))
 			}
 			if f := c07Foreign(up, "C", ownerOfHost); f != "" {
 				r.Violation("c07-host-foreign-bytes", fmt.Sprintf("the host of tunnel %d received bytes sent by the client of another tunnel (%s)", l.t.idx, f), spec.String()+fmt.Sprintf("host of tunnel %d received: %q\n", l.t.idx, up))
@@ -939,6 +998,13 @@ func c07Short(s string) string {
 	return strings.Join(fs, " ")
 }
 
+func c07Clip(b []byte) []byte {
+	if len(b) > 600 {
+		return b[:600]
+	}
+	return b
+}
+
 func bucket(n int) int {
 	switch {
 	case n <= 1:
@@ -988,6 +1054,7 @@ func runC07Alone(r *Run) {
 	idp := setupSecurity()
 	gws := startGateway(c07Gateway())
 	defer gws.close()
+	defer c07FileStore()()
 	// regenerate the same round: the tunnel count is forced to the recorded one
 	spec := genC07Spec(r.Seed, round, n, b == 1)
 	if st := os.Getenv("VERIF_C07_STORM"); st != "" {
